@@ -24,4 +24,20 @@ def handle : List Sexp → String
     | _, _, _, _ => "bad-request"
   | _ => "bad-request"
 
+/-- `c14legal ( root ) ( adds )` ↦ `t` when the source is legal notation (X.680 20.3/20.4) and every number X.680
+    assigns fits the lexer's i128 — such an enumeration has to compile — else `f` -/
+def handleLegal : List Sexp → String
+  | [root, adds] =>
+    match asListOf (asOpt asInt) root, asListOf (asOpt asInt) adds with
+    | some root, some adds =>
+      let m := Lexer.Enum.number root adds
+      let valid := (Spec.Enum.explicitOf root).eraseDups.length == (Spec.Enum.explicitOf root).length
+        && Spec.Enum.validAddsAux m.1 [] adds m.2
+      let lo : Int := -170141183460469231731687303715884105728
+      let hi : Int := 170141183460469231731687303715884105727
+      let fits := (m.1 ++ m.2).all fun v => decide (lo ≤ v) && decide (v ≤ hi)
+      if valid && fits then "t" else "f"
+    | _, _ => "bad-request"
+  | _ => "bad-request"
+
 end Driver.C14
